@@ -306,6 +306,135 @@ fn scalar_sweeps(rep: &mut Report) {
     rep.sym("scalar-sweeps");
 }
 
+/// conversions, comparisons, Deref / AsRef / From impls and builders not reached through the menus
+fn extra_api(rep: &mut Report) {
+    use std::net::{IpAddr, Ipv4Addr, Ipv6Addr, SocketAddr};
+    use stun_rs::attributes::ice;
+    let none = || json!({"api": "extra conversions"});
+    let addrs = [
+        SocketAddr::new(IpAddr::V4(Ipv4Addr::new(0, 0, 0, 0)), 0),
+        SocketAddr::new(IpAddr::V4(Ipv4Addr::new(255, 255, 255, 255)), 65535),
+        SocketAddr::new(IpAddr::V6(Ipv6Addr::new(0, 0, 0, 0, 0, 0, 0, 0)), 0),
+        SocketAddr::new(IpAddr::V6(Ipv6Addr::new(0xffff, 0xffff, 0xffff, 0xffff, 0xffff, 0xffff, 0xffff, 0xffff)), 65535),
+    ];
+    for a in addrs {
+        np("address-attributes", "any", &none, rep, || {
+            let m = MappedAddress::new(a.ip(), a.port());
+            let m2 = MappedAddress::from(a);
+            let x = XorMappedAddress::from(a);
+            let al = AlternateServer::new(a.ip(), a.port());
+            let p = t::XorPeerAddress::from(a);
+            let r = t::XorRelayedAddress::from(a);
+            let o = d::OtherAddress::from(a);
+            let ro = d::ResponseOrigin::new(a.ip(), a.port());
+            let sa: &SocketAddr = m.as_ref();
+            (m == m2, *sa == a, x.socket_address().port(), al.socket_address().is_ipv4(), p.clone() == p, r.as_ref().port(), o.socket_address().ip(), format!("{:?}", ro))
+        });
+        np("family-attributes", "any", &none, rep, || {
+            let f = if a.is_ipv4() { AddressFamily::IPv4 } else { AddressFamily::IPv6 };
+            let r = t::RequestedAddressFamily::from(f);
+            let ad = t::AdditionalAddressFamily::new(f);
+            (r.family() == f, ad.family() == f, r.clone() == r, format!("{:?}{:?}", r, ad))
+        });
+    }
+    for v in [0u64, 1, u32::MAX as u64, u64::MAX] {
+        np("integer-attributes", "any", &none, rep, || {
+            let p = ice::Priority::from(v as u32);
+            let c = ice::IceControlled::from(v);
+            let g = ice::IceControlling::new(v);
+            let l = t::LifeTime::new(v as u32);
+            let rp = d::ResponsePort::from(v as u16);
+            let r: &u32 = p.as_ref();
+            (
+                p == (v as u32),
+                (v as u32) == p,
+                p.partial_cmp(&(v as u32)),
+                (v as u32).partial_cmp(&p),
+                p < ice::Priority::new(u32::MAX) || v as u32 == u32::MAX,
+                *r,
+                c.as_u64() == g.as_u64(),
+                c == v,
+                l.as_u32(),
+                rp.as_u16(),
+                {
+                    use std::collections::HashSet;
+                    let mut h = HashSet::new();
+                    h.insert(p);
+                    h.contains(&p)
+                },
+            )
+        });
+    }
+    np("misc-turn", "any", &none, rep, || {
+        let e = t::EvenPort::from(true);
+        let e0 = t::EvenPort::default();
+        let c = t::ChannelNumber::default();
+        let rt = t::RequestedTrasport::default();
+        let rt2 = t::RequestedTrasport::from(stun_rs::protocols::UDP);
+        let pn = stun_rs::protocols::ProtocolNumber::default();
+        let tok = t::ReservationToken::from(&[9u8; 8]);
+        let tr: &[u8] = tok.as_ref();
+        (e.reserve(), e0.reserve(), c.number(), rt == rt2, pn == 0u8, 17u8 == stun_rs::protocols::UDP, pn.as_u8(), tr.len(), tok.token().len(), t::DontFragment::default() == t::DontFragment {}, ice::UseCandidate::default() == ice::UseCandidate {})
+    });
+    for n in [0usize, 1, 3, 4, 5, 65536] {
+        np("blob-attributes", "any", &none, rep, || {
+            let v: Vec<u8> = (0..n).map(|x| x as u8).collect();
+            let dd = t::Data::from(v.as_slice());
+            let d2 = t::Data::from(v.clone());
+            let d3 = t::Data::new(&v);
+            let m = stun_rs::attributes::mobility::MobilityTicket::from(v.as_slice());
+            let dr: &[u8] = &dd;
+            let ar: &[u8] = d2.as_ref();
+            (dd == d2, d3.as_bytes().len(), dr.len(), ar.len(), m.value().len(), m == [0u8, 1, 2], m.as_ref().len(), t::Data::default().len())
+        });
+    }
+    np("unknown-attributes-conversions", "any", &none, rep, || {
+        let u = UnknownAttributes::from(&[1u16, 2, 2, 1, 3][..]);
+        let s: &[u16] = &u;
+        (u.attributes() == [1, 2, 3], s.len(), u.iter().count(), u.clone() == u)
+    });
+    np("password-algorithms-conversions", "any", &none, rep, || {
+        let p = PasswordAlgorithms::from(vec![PasswordAlgorithm::new(Algorithm::from(AlgorithmId::MD5)), PasswordAlgorithm::new(Algorithm::new(AlgorithmId::SHA256, Some(&[][..])))]);
+        let a: &Algorithm = p.password_algorithms()[0].as_ref();
+        (p.iter().count(), a.algorithm(), p.clone().into_iter().map(|x| x.parameters().map(|q| q.len())).collect::<Vec<_>>(), PasswordAlgorithms::default().iter().count())
+    });
+    np("verifiable-attributes-from-bytes", "any", &none, rep, || {
+        let key = HMACKey::new_short_term("k").unwrap();
+        let mi = MessageIntegrity::from([7u8; 20]);
+        let mi2 = MessageIntegrity::from(&[7u8; 20]);
+        let sh = MessageIntegritySha256::from([7u8; 32]);
+        let sh2 = MessageIntegritySha256::from(&[7u8; 32]);
+        let fp = Fingerprint::from([1u8, 2, 3, 4]);
+        let fp2 = Fingerprint::from(&[1u8, 2, 3, 4]);
+        let enc = MessageIntegrity::new(key.clone());
+        (mi == mi2, sh == sh2, fp == fp2, mi.validate(&[], &key), sh.validate(&[0; 70000], &key), fp.validate(&[]), enc.validate(&[1], &key), Fingerprint::default().validate(&[1]), format!("{:?}{:?}", enc, fp))
+    });
+    np("error-code-attribute", "any", &none, rep, || {
+        let e = stun_rs::ErrorCode::new(699, "x").unwrap();
+        let a = stun_rs::attributes::stun::ErrorCode::from(e.clone());
+        let b = stun_rs::attributes::stun::ErrorCode::new(e);
+        (a == b, a.error_code().class(), a.error_code().number(), format!("{:?}", a))
+    });
+    np("change-request-and-icmp", "any", &none, rep, || {
+        let c = d::ChangeRequest::new(Some(d::ChangeRequestFlags::ChangeIp | d::ChangeRequestFlags::ChangePort));
+        let c0 = d::ChangeRequest::new(None);
+        let i = t::Icmp::new(t::IcmpType::new(127).unwrap(), t::IcmpCode::new(511).unwrap(), [1, 2, 3, 4]);
+        (c.flags().bits(), c0.flags().is_empty(), i.icmp_type().get(), i.icmp_code().get(), i.error_data().len(), i.clone() == i, t::IcmpType::new(128).is_none(), t::IcmpCode::new(512).is_none())
+    });
+    np("builders-and-contexts", "any", &none, rep, || {
+        let key = HMACKey::new_short_term("k").unwrap();
+        let ctx = DecoderContextBuilder::default().with_key(key).with_validation().with_unknown_data().not_ignore().build();
+        let dec = MessageDecoderBuilder::default().with_context(ctx.clone()).build();
+        let enc = MessageEncoderBuilder::default().with_context(EncoderContextBuilder::default().with_custom_padding(StunPadding::Random).build()).build();
+        let m = StunMessageBuilder::new(methods::BINDING, MessageClass::Indication).with_attribute(Software::new("s").unwrap()).build();
+        let mut buf = [0u8; 64];
+        let n = enc.encode(&mut buf, &m).unwrap_or(0);
+        let back = dec.decode(&buf[..n]).is_ok();
+        (ctx.key().is_some(), ctx.validate(), ctx.with_unknown_data(), dec.get_context().is_some(), back, EncoderContextBuilder::default().with_custom_padding(StunPadding::Custom(3)).build().padding(), m.get::<Software>().is_some(), m.get::<Realm>().is_none(), CredentialMechanism::ShortTerm.is_short_term(), CredentialMechanism::LongTerm.is_long_term())
+    });
+    rep.sym("extra-api");
+}
+
 /// build(k <= 3 adds) . clone . mutate either copy (j <= 2 adds) . read both — against a Vec reference
 fn clone_sequences(rep: &mut Report) {
     let algs: Vec<PasswordAlgorithm> = vec![
@@ -544,6 +673,7 @@ pub fn run(ctx: &RunCtx) -> i32 {
             }
         }
         r.sym("attribute-accessors");
+        extra_api(&mut r);
         clone_sequences(&mut r);
         shared.merge(r);
     }
@@ -558,7 +688,7 @@ pub fn run(ctx: &RunCtx) -> i32 {
             level: "exploration",
             rule: format!("{} strings (every string of length <=3 over a {}-symbol alphabet incl. quotes, backslash, TAB, 2-/3-/4-byte and combining characters, plus lengths 507..510 and 762..764) through every string-taking constructor / conversion (UserName, Realm, Nonce, Nonce::new_nonce_cookie x 4 flag sets, Software, Padding, ErrorCode x 7 codes, UserHash, HMACKey short- and long-term x 3 positions x 4 algorithms) and the accessors of every value built; every nonce 'obMatJos2' + 4 alphabet symbols + {} suffixes through is_nonce_cookie / security_features; every u16 through MessageType/MessageMethod/AttributeType/AlgorithmId/ErrorCode/IcmpCode conversions, every u8 through MessageClass/AddressFamily/IcmpType; every attribute of the menu (and decoded Unknown / integrity / fingerprint forms) through all 39 is_/as_ accessors, the matching expect_, attribute_type, Debug, Clone; build(k<=3).clone.mutate-either(j<=2).read-both for PasswordAlgorithms (2 construction routes), UnknownAttributes and the agent's StunAttributes against a Vec model. Non-trivial = distinct input for which a value was actually constructed and exercised", n_str, ALPHABET.len(), suffixes.len()),
             assumptions: vec!["the documented expect_* panic on a type mismatch is not exercised".into()],
-            required_symbols: vec!["string-constructors", "cookie-nonces", "scalar-sweeps", "attribute-accessors", "clone-sequences", "cookie-flags-roundtrip"],
+            required_symbols: vec!["string-constructors", "cookie-nonces", "scalar-sweeps", "attribute-accessors", "clone-sequences", "cookie-flags-roundtrip", "extra-api"],
             min_outcomes: 2,
             exhaustive: true,
             bounds: json!({"alphabet": ALPHABET.len(), "max_len": 3, "strings": n_str}),
